@@ -336,7 +336,10 @@ class Ex:
         name = re.sub(r": .*$", "", t)
         fn = self.crate.find(name)
         if fn is not None and fn.kind in ("const", "static"):
-            return deep(self.eval_const(fn))
+            v = deep(self.eval_const(fn))
+            if isinstance(v, Agg) and v.name == "array" and "promoted" not in name:
+                v.name = "const " + name.split("::")[-1]
+            return v
         m = re.match(r"^([A-Za-z_][\w:<>, ]*)::([A-Z]\w*)$", name)
         if m:
             return Agg([], m.group(2), re.sub(r"::<.*?>(?=::|$)", "", name))
@@ -453,7 +456,8 @@ class Ex:
         """arr[idx] with symbolic idx"""
         vals = arr.f
         if all(isinstance(x, Sc) and x.conc() for x in vals):
-            return self.dom.table(cell.name if cell is not None and cell.name else "tbl", [x.v for x in vals], idx, vals[0].ty)
+            nm = arr.name[6:] if (arr.name or "").startswith("const ") else (cell.name if cell is not None and cell.name else "tbl")
+            return self.dom.table(nm, [x.v for x in vals], idx, vals[0].ty)
         return self.merge_select(vals, idx)
 
     def merge_select(self, vals, idx):
